@@ -76,6 +76,50 @@ def cold_unit(name, reg=None):
     return Unit(parse_unyt_expr(name), registry=reg)
 
 
+def origin_registry(route1, unit_system=None):
+    """a registry object the user did NOT build: the registry of what came back from `route1` applied
+    to a quantity of the DEFAULT registry (a deep copy, an unpickled copy, a `from_json` copy, … of the
+    default registry — whatever class and whatever pickling path such an object has).  The second step
+    of a two-step history starts here: the user adds units of their own to it and persists again.
+    Raises ValueError when that registry shares its table with the default registry (nothing can be
+    added to it without editing the default registry itself)."""
+    from unyt import unyt_quantity
+    from unyt.unit_registry import default_unit_registry
+    from unyt.unit_systems import unit_system_registry
+
+    q0 = unyt_quantity(1.0, cold_unit("km", default_unit_registry))
+    reg = restore(route1, q0).units.registry
+    if reg is default_unit_registry or reg.lut is default_unit_registry.lut:
+        raise ValueError(f"{route1}: the restored registry shares its table with the default registry")
+    if unit_system is not None:
+        reg.unit_system = unit_system_registry[unit_system]
+    return reg
+
+
+def private_origin_routes():
+    """the routes that hand a default-registry object back on a registry of its own"""
+    out = []
+    for r in ROUTES:
+        try:
+            origin_registry(r)
+            out.append(r)
+        except ValueError:
+            pass
+    return out
+
+
+def set_row_value(reg, sym, value):
+    """`reg.modify(sym, value)`; on a registry class that refuses `modify` (the class of the default
+    registry), the same row written through `add` (which that class allows)"""
+    try:
+        reg.modify(sym, value)
+        return "modify"
+    except TypeError:
+        v = reg.lut[sym]
+        reg.add(sym, float(value), v[1], tex_repr=v[3], offset=(float(v[2]) if v[2] else None), prefixable=bool(v[4]))
+        return "add"
+
+
 def base_symbols():
     import unyt.dimensions as D
 
@@ -112,8 +156,10 @@ def _outcome(f):
         return ("exc", type(e).__name__)
 
 
-def probe_route(route):
-    """the flags of `RouteCfg` for one route, each from ONE persist+load of a purpose-built object"""
+def probe_route(route, mkreg=None):
+    """the flags of `RouteCfg` for one route, each from ONE persist+load of a purpose-built object.
+    `mkreg(unit_system=None)` builds the registry the probe objects hang on (default: a fresh
+    `UnitRegistry`; the translator also passes `origin_registry(route1)` factories)"""
     import unyt.dimensions as D
     from unyt import Unit, unyt_array, unyt_quantity
     from unyt.unit_registry import UnitRegistry
@@ -121,6 +167,20 @@ def probe_route(route):
     out = {}
     notes = {}
     unit_route = route in UNIT_ROUTES
+    if mkreg is None:
+        def mkreg(unit_system=None):
+            return UnitRegistry(unit_system=unit_system) if unit_system else UnitRegistry()
+    _cold = globals()["cold_unit"]
+
+    _shared = []
+
+    def cold_unit(name, reg=None):  # noqa: F811 - every probe object hangs on a registry of the probed kind
+        if reg is None:
+            # the probes that never edit their registry share one
+            if not _shared:
+                _shared.append(mkreg())
+            reg = _shared[0]
+        return _cold(name, reg)
 
     # --- numbers, dtype, class -----------------------------------------------------------------
     x = unyt_array(np.array([1.5, -2.25e-7, 3.0000000000000004e30, 0.1]), cold_unit("km"))
@@ -144,11 +204,11 @@ def probe_route(route):
         out["unitByDisplayStr"] = True
     else:
         raise RuntimeError(f"{route}: delta_degC probe raised {o[1]}")
-    reg = UnitRegistry()
+    reg = mkreg()
     reg.add("vfoo", 3.0, D.length)
     sq = unyt_quantity(2.0, cold_unit("vfoo", reg))
     assert sq.units.base_value == 3.0 and "vfoo" not in reg._unit_object_cache
-    reg.modify("vfoo", 5.0)
+    set_row_value(reg, "vfoo", 5.0)
     o = _outcome(lambda: restore(route, sq).units.base_value)
     # carried: the (stale) value 3.0 the object holds; recomputed: 5.0 from the table (or refused,
     # when the route does not carry the registry at all)
@@ -158,7 +218,7 @@ def probe_route(route):
     cq = unyt_quantity(90.0, cold_unit("degree"))
     assert dim_identity(cq.units) == "canon"
     out["unitCanonOnCanon"] = dim_identity(restore(route, cq).units) == "canon"
-    reg = UnitRegistry()
+    reg = mkreg()
     nu = Unit(Unit("degree").expr, base_value=Unit("degree").base_value, base_offset=0.0, dimensions=noncanon(D.angle), registry=reg)
     assert dim_identity(nu) == "lost"
     nq = unyt_quantity(90.0, nu)
@@ -166,11 +226,16 @@ def probe_route(route):
     out["unitCanonOnNon"] = dim_identity(restore(route, nq).units) == "canon"
     # --- the registry ----------------------------------------------------------------------------
     def custom(unit_system=None):
-        reg = UnitRegistry(unit_system=unit_system) if unit_system else UnitRegistry()
+        reg = mkreg(unit_system)
         reg.add("vfoo", 3.0, D.angle, prefixable=True)
         reg.add("vbar", 7.0, noncanon(D.angle))
-        reg.modify("g", 2.0)
-        reg.remove("lb")
+        set_row_value(reg, "g", 2.0)
+        try:
+            reg.remove("lb")
+        except TypeError:
+            # the class of the default registry refuses `remove`: "a removed default" is not a state
+            # the API reaches on such a registry; the flag is reported as not observable
+            notes["removeRefused"] = True
         v = reg.lut["degree"]
         reg.lut["arcsec"] = (reg.lut["arcsec"][0], noncanon(D.angle)) + tuple(reg.lut["arcsec"][2:])
         assert v[1] is D.angle
@@ -182,7 +247,7 @@ def probe_route(route):
     out["regSame"] = L is reg.lut
     out["keepsAdded"] = "vfoo" in L and L["vfoo"][0] == 3.0 and bool(L["vfoo"][4]) and "vbar" in L
     out["keepsModifiedDefault"] = L["g"][0] == 2.0
-    out["keepsRemoved"] = "lb" not in L
+    out["keepsRemoved"] = None if notes.get("removeRefused") else "lb" not in L
     if out["keepsAdded"]:
         out["userRowCanonOnCanon"] = L["vfoo"][1] is D.angle
         out["userRowCanonOnNon"] = L["vbar"][1] is D.angle
@@ -196,7 +261,7 @@ def probe_route(route):
     us = rq.units.registry.unit_system
     out["keepsUnitSystem"] = getattr(us, "name", str(us)) == "cgs"
     # --- default rows re-declared through add() with exactly the default data except ONE field ------
-    reg = UnitRegistry()
+    reg = mkreg()
     for sym, field in (("ft", "value"), ("AU", "dimensions"), ("hr", "offset"), ("ly", "tex"),
                        ("mile", "prefixable"), ("bar", "prefixable"), ("Msun", "prefixable")):
         redeclare(reg, sym, field)
